@@ -233,10 +233,12 @@ MANIFEST_ENTRY = {
             "(1 + h/2^k)^(2^k) -> exp h and hence entrywise for every diagonal generator (C11_convergence_scalar, "
             "C11_convergence_diagonal_partial), and for every generator [diag(g) | h] WITH translation: all entries of the closed form "
             "converge to those of the matrix exponential (translation column h phi1(g), phi1 = (e^g-1)/g), which is the time-one map of "
-            "the ODE x' = g x + h (C11_convergence_scaling_translation_2d/_3d, C11_limit_is_time_one_flow). For 2-D generators with off-diagonal entries that are "
-            "diagonalisable over the reals (G = P diag P^-1: all symmetric ones, all with distinct real eigenvalues) every entry converges "
-            "to that of P diag(e^g) P^-1 = exp G (C11_convergence_diagonalisable_2d). Partial: convergence for "
-            "generators with complex eigenvalues (rotational part), defective ones and 3-D non-diagonal ones (matrix exponential proper) and the second-order inverse consistency exp(v) o exp(-v) for smooth fields are explored numerically on "
+            "the ODE x' = g x + h (C11_convergence_scaling_translation_2d/_3d, C11_limit_is_time_one_flow). For EVERY linear 2-D generator G = [[a b] [c d]] the closed form converges entrywise to "
+            "P exp(J) P^-1 = exp G, J the real canonical form of G (diagonal / Jordan block / rotation-scaling, classification by the "
+            "discriminant proved in Coq; similarity invariance of the closed form for every k; the three exponentials characterised by "
+            "X(0) = I, X' = J X): C11_convergence_every_linear_generator_2d, C11_convergence_canonical_forms_2d, "
+            "C11_convergence_similarity_invariant_2d, C11_canonical_exponentials_solve_ode, C11_convergence_diagonalisable_2d. Partial: "
+            "convergence for 3-D generators with off-diagonal entries and for translation combined with a non-diagonal linear part, and the second-order inverse consistency exp(v) o exp(-v) for smooth fields are explored numerically on "
             "the implementation only (not proved). The ExpFlow module is traced (arguments handed to expv on all four call paths), and so is the flag StationaryVelocityFieldTransform gives it at construction and after grid_() / grid(). Trusted: Coq kernel, vm_compute, the model of "
             "F.grid_sample (Model/Sampler.v, validated by the correspondence), symtorch, float rounding outside the model.",
 }
